@@ -1499,6 +1499,12 @@ class SpaceManager(SharedSpaceOperations):
 
     def new_ref(self, space, name, value, refmode):
 
+        for subspace in self._get_subs(space, skip_self=False):
+            # A model-level reference of the same name must not hide
+            # cells and child spaces from the conflict check below.
+            if name in subspace.cells or name in subspace.named_spaces:
+                raise ValueError("Cannot create reference '%s'" % name)
+
         other = self._find_name_in_subs(space, name)
         if other is not None:
             if not isinstance(other, ReferenceImpl):
